@@ -111,9 +111,22 @@ func (v sVal) equal(o sVal) bool {
 	return false
 }
 
+// Value generation mode of the case being executed (one case runs at a time in a
+// worker process).  Mode 0: every (write, cell) value is unique and attributable.
+// Mode 1 (C07): codec-boundary values - per (series, field) column patterns
+// (constant, constant-delta, small deltas, extremes, random bits; NaN payloads,
+// +-Inf, -0.0, subnormals; empty / long / compressible / random strings).
+var (
+	sValMode int
+	sValSeed uint64
+)
+
 // cellValue: the value write w stores in field f of row r.  Integers stay well
-// inside +-2^53, floats are exactly representable.
+// inside +-2^53; in mode 0 floats are exactly representable.
 func cellValue(w int, r SRow, f string) sVal {
+	if sValMode == 1 {
+		return codecValue(w, r, f)
+	}
 	cell := int64(r.M)*100000 + int64(r.S)*1000 + int64(r.T)
 	switch f {
 	case "fi":
@@ -124,6 +137,122 @@ func cellValue(w int, r SRow, f string) sVal {
 		return sVal{Typ: influxql.String, S: fmt.Sprintf("w%d.c%d", w, cell), W: w}
 	case "fb":
 		return sVal{Typ: influxql.Boolean, B: (int64(w)+cell)%2 == 0, W: w}
+	}
+	panic("unknown field " + f)
+}
+
+func mix64(a, b uint64) uint64 {
+	z := a + 0x9e3779b97f4a7c15*(b+1)
+	z = (z ^ (z >> 30)) * 0xbf58476d1ce4e5b9
+	z = (z ^ (z >> 27)) * 0x94d049bb133111eb
+	return z ^ (z >> 31)
+}
+
+const maxSafeInt = int64(1)<<53 - 1
+
+// codecValue: a function of (seed, write, cell, field) that produces column shapes
+// which select the different encoder modes.
+func codecValue(w int, r SRow, f string) sVal {
+	col := mix64(sValSeed, uint64(r.M)*7919+uint64(r.S)*104729+uint64(f[1]))
+	cellH := mix64(col, uint64(r.T)*1000003+uint64(w))
+	pat := col % 6
+	T := int64(r.T)
+	switch f {
+	case "fi":
+		base := int64(col>>20) % 1000000
+		var v int64
+		switch pat {
+		case 0:
+			v = base
+		case 1:
+			v = base + T*int64(col%1000+1)
+		case 2:
+			v = base + T*10 + int64(cellH%7)
+		case 3:
+			ex := []int64{maxSafeInt, -maxSafeInt, 0, 1, -1, 1 << 31, -(1 << 31), 1 << 32, (1 << 32) + 1, maxSafeInt - 1}
+			v = ex[cellH%uint64(len(ex))]
+		case 4:
+			v = int64(cellH>>11) - (int64(1) << 52)
+		default:
+			v = base + T*(int64(1)<<40) + int64(w)
+		}
+		return sVal{Typ: influxql.Integer, I: v, W: w}
+	case "ff":
+		var v float64
+		switch pat {
+		case 0:
+			v = float64(col%1000) / 4
+		case 1:
+			v = float64(int64(col%100000) + T*3)
+		case 2:
+			v = float64(int64(cellH%100000)) / 100
+		case 3:
+			sp := []float64{math.Inf(1), math.Inf(-1), math.NaN(), math.Float64frombits(0x7ff8000000000001 | cellH&0xffff<<8),
+				math.Copysign(0, -1), 0, math.SmallestNonzeroFloat64, -math.SmallestNonzeroFloat64, math.MaxFloat64, -math.MaxFloat64, 1, -1.5}
+			v = sp[cellH%uint64(len(sp))]
+		case 4:
+			v = math.Float64frombits(cellH)
+			if math.IsNaN(v) || math.IsInf(v, 0) {
+				v = float64(cellH % 1000)
+			}
+		default:
+			v = float64(col % 97)
+			if cellH%5 == 0 {
+				v += float64(cellH % 3)
+			}
+		}
+		return sVal{Typ: influxql.Float, F: v, W: w}
+	case "fs":
+		var v string
+		switch pat {
+		case 0:
+			v = ""
+		case 1:
+			v = "const-" + fmt.Sprint(col%10)
+		case 2:
+			v = strings.Repeat("ab", int(cellH%2500))
+		case 3:
+			n := int(cellH % 200)
+			b := make([]byte, n)
+			x := cellH
+			for i := range b {
+				x = mix64(x, uint64(i))
+				b[i] = byte(33 + x%90)
+			}
+			v = string(b)
+		case 4:
+			if cellH%16 == 0 {
+				n := 20000 + int(cellH%5000)
+				b := make([]byte, n)
+				x := cellH
+				for i := range b {
+					if i%8 == 0 {
+						x = mix64(x, uint64(i))
+					}
+					b[i] = byte(32 + (x>>(8*uint(i%8)))%95)
+				}
+				v = string(b)
+			} else {
+				v = fmt.Sprintf("v%d", cellH%1000)
+			}
+		default:
+			us := []string{"", "é", "日本語", "a,b=c d", "\"quoted\"", "tab\there", "nul\x00byte", "😀😀", "x"}
+			v = us[cellH%uint64(len(us))]
+		}
+		return sVal{Typ: influxql.String, S: v, W: w}
+	case "fb":
+		var v bool
+		switch pat % 4 {
+		case 0:
+			v = true
+		case 1:
+			v = false
+		case 2:
+			v = r.T%2 == 0
+		default:
+			v = cellH%2 == 0
+		}
+		return sVal{Typ: influxql.Boolean, B: v, W: w}
 	}
 	panic("unknown field " + f)
 }
@@ -221,6 +350,9 @@ func attribute(v sVal) int {
 // the same field of the same row produced it, "foreign_value" if it was written
 // to some other cell or never, "wrong_value" if it cannot be attributed (booleans).
 func (m *sModel) classifyM(mst int, series string, t int64, f string, got sVal) string {
+	if sValMode != 0 {
+		return "wrong_value" // values are not unique in codec mode
+	}
 	for k, hs := range m.hist {
 		if k.M != mst || sSeriesKey(k.S) != series || sTime(k.T) != t {
 			continue
